@@ -518,20 +518,22 @@ def check_import_closure(report, pm: PyModel):
         "self.extended_lro.request_type": "self.extended_lro", "self.extended_lro.operation_type": "self.extended_lro",
         "self.paged_result_field.message": "self.paged_result_field and self.paged_result_field.message",
     }
+    from .common_rules import stmt_guards, local_env
+    from ..pymodel import _nnf
+    from ..pynorm import subst as _subst
     found = {}
-
-    def visit(body, cond):
-        for st in body:
-            if isinstance(st, ast.If):
-                visit(st.body, ast.unparse(st.test))
-                visit(st.orelse, None)
-            elif isinstance(st, ast.Expr) and isinstance(st.value, ast.Call) and isinstance(st.value.func, ast.Attribute) \
-                    and st.value.func.attr in ("append", "extend") and st.value.args:
-                found[ast.unparse(st.value.args[0])] = cond
-    visit(rt.node.body, None)
+    env_rt = local_env(rt.node)
+    for guards, st in stmt_guards(rt.node, env_rt):
+        if isinstance(st, ast.Expr) and isinstance(st.value, ast.Call) and isinstance(st.value.func, ast.Attribute) \
+                and st.value.func.attr in ("append", "extend") and st.value.args:
+            a0 = _subst(_subst(st.value.args[0], env_rt), env_rt)
+            items = list(a0.elts) if st.value.func.attr == "extend" and isinstance(a0, (ast.List, ast.Tuple)) else [a0]
+            for it in items:
+                found[ast.unparse(it)] = frozenset(g for g in guards if g[0] != "for")
     for expr, cond in want.items():
         r.instance(f"_ref_types includes {expr}")
-        r.check(expr in found and found[expr] == cond, rt.module.path, rt.node.lineno, f"_ref_types: {expr} under {found.get(expr, '<absent>')}",
+        wantc = frozenset(_nnf(ast.parse(cond, mode="eval").body, True, []))
+        r.check(expr in found and found[expr] == wantc, rt.module.path, rt.node.lineno, f"_ref_types: {expr} under {sorted(found.get(expr, ['<absent>']))}",
                 f"_ref_types must include {expr} whenever `{cond}`; otherwise the client modules reference a type they do not import")
     init = [n for n in ast.walk(rt.node) if isinstance(n, (ast.Assign, ast.AnnAssign)) and isinstance(n.value, ast.List)
             and [ast.unparse(e) for e in n.value.elts] == ["self.input"]]
@@ -635,7 +637,11 @@ def check_python_package_exprs(report, pm: PyModel):
                         sites.append((q, fi, n, k.value, parents))
     r.need(len(sites) >= 6, "Address(...) / Import(...) constructions with package=", str(len(sites)))
     own = 0
+    from .common_rules import local_env
+    from ..pynorm import subst as _subst
     for q, fi, call, val, parents in sites:
+        val = _subst(val, local_env(fi.node))          # named intermediates stand for what they were bound to
+        val = _subst(val, local_env(fi.node))
         src = ast.unparse(val)
         r.instance(f"{q.rsplit('.', 2)[-2]}.{q.rsplit('.', 1)[-1]}: package={src[:80]}")
         # enclosing if-tests
